@@ -1,6 +1,817 @@
-//! stub (engine under construction)
+//! C18: adaptive operator selection (slot machines, arg-max / weighted choice, rewards) and
+//! termination math (estimates, variation criterion, statistics helpers) stay numerically sane.
+
+use super::common::*;
 use crate::fw::*;
+use proptest::prelude::*;
+use rosomaxa::algorithms::math::*;
+use rosomaxa::algorithms::rl::{SlotAction, SlotFeedback, SlotMachine};
+use rosomaxa::hyper::{DynamicSelective, HeuristicSearchOperators};
+use rosomaxa::prelude::*;
+use rosomaxa::termination::*;
+use rosomaxa::utils::{DefaultDistributionSampler, DistributionSampler, Parallelism, ThreadPool, Timer, random_argmax, verif_reseed_repeatable};
+use serde::{Deserialize, Serialize};
+use serde_json::json;
+use std::any::Any;
+use std::cell::RefCell;
+use std::cmp::Ordering;
+use std::collections::HashMap;
+use std::rc::Rc;
+use std::sync::{Arc, Mutex};
+
+/// A generated number kept symbolic so that replay files reproduce it bit-exactly:
+/// palette entry, uniform fill `scale * u / 2^32`, or a small integer (ties).
+#[derive(Clone, Debug, Serialize, Deserialize)]
+pub enum Num {
+    P(u8),
+    U(u8, u32),
+    I(i8),
+}
+
+impl Num {
+    fn get(&self, palette: &[f64], scales: &[f64]) -> f64 {
+        match self {
+            Num::P(i) => palette[*i as usize % palette.len()],
+            Num::U(s, u) => scales[*s as usize % scales.len()] * (*u as f64 / 4_294_967_296.),
+            Num::I(i) => *i as f64,
+        }
+    }
+}
+
+fn num(palette: usize, scales: usize, ints: (i8, i8)) -> BoxedStrategy<Num> {
+    prop_oneof![
+        5 => (0..palette as u8).prop_map(Num::P),
+        3 => (0..scales as u8, any::<u32>()).prop_map(|(s, u)| Num::U(s, u)),
+        3 => (ints.0..=ints.1).prop_map(Num::I),
+    ]
+    .boxed()
+}
+
+fn in_unit(x: f64) -> bool { (0. ..=1.).contains(&x) }
+
+// ---------------------------------------------------------------------------------------------
+// harness solution / objective / heuristic context (statistics, ranked and phase are set by the case)
+// ---------------------------------------------------------------------------------------------
+
+#[derive(Clone, Debug)]
+pub struct Sol(pub Vec<f64>);
+
+impl HeuristicSolution for Sol {
+    fn fitness(&self) -> impl Iterator<Item = Float> { self.0.iter().copied() }
+    fn deep_copy(&self) -> Self { self.clone() }
+}
+
+pub struct Lex;
+
+impl HeuristicObjective for Lex {
+    type Solution = Sol;
+    fn total_order(&self, a: &Sol, b: &Sol) -> Ordering {
+        a.0.iter().zip(b.0.iter()).map(|(x, y)| x.total_cmp(y)).find(|o| *o != Ordering::Equal).unwrap_or(Ordering::Equal)
+    }
+}
+
+pub struct TCtx {
+    objective: Lex,
+    ranked: Vec<Sol>,
+    statistics: HeuristicStatistics,
+    phase: u8,
+    environment: Environment,
+    state: HashMap<i32, Box<dyn Any + Send + Sync>>,
+}
+
+impl TCtx {
+    fn new(environment: Environment) -> Self {
+        Self { objective: Lex, ranked: vec![], statistics: HeuristicStatistics::default(), phase: 1, environment, state: HashMap::new() }
+    }
+}
+
+impl HeuristicContext for TCtx {
+    type Objective = Lex;
+    type Solution = Sol;
+    fn objective(&self) -> &Lex { &self.objective }
+    fn selected(&self) -> Box<dyn Iterator<Item = &'_ Sol> + '_> { Box::new(self.ranked.iter()) }
+    fn ranked(&self) -> Box<dyn Iterator<Item = &'_ Sol> + '_> { Box::new(self.ranked.iter()) }
+    fn statistics(&self) -> &HeuristicStatistics { &self.statistics }
+    fn selection_phase(&self) -> SelectionPhase {
+        match self.phase {
+            0 => SelectionPhase::Initial,
+            1 => SelectionPhase::Exploration,
+            _ => SelectionPhase::Exploitation,
+        }
+    }
+    fn environment(&self) -> &Environment { &self.environment }
+    fn on_initial(&mut self, solution: Sol, _: Timer) { self.ranked.push(solution); }
+    fn on_generation(&mut self, _: Vec<Sol>, _: Float, _: Timer) {}
+    fn on_result(self) -> HeuristicResult<Lex, Sol> { Err("harness context has no population".into()) }
+}
+
+impl Stateful for TCtx {
+    type Key = i32;
+    fn set_state<T: 'static + Send + Sync>(&mut self, key: i32, state: T) { self.state.insert(key, Box::new(state)); }
+    fn get_state<T: 'static + Send + Sync>(&self, key: &i32) -> Option<&T> { self.state.get(key).and_then(|v| v.downcast_ref::<T>()) }
+    fn state_mut<T: 'static + Send + Sync, F: Fn() -> T>(&mut self, key: i32, inserter: F) -> &mut T {
+        self.state.entry(key).or_insert_with(|| Box::new(inserter())).downcast_mut::<T>().unwrap()
+    }
+}
+
+fn env(seed: u64, experimental: bool) -> Environment {
+    Environment::new(Arc::new(SeededRandom::new(seed)), None, Parallelism::default(), quiet_logger(), experimental)
+}
+
+// ---------------------------------------------------------------------------------------------
+// (a) SlotMachine with a recording sampler, used the way hyper/dynamic_selective.rs uses it
+// ---------------------------------------------------------------------------------------------
+
+const REWARDS: [f64; 10] = [0., 5e-324, 1e-300, 1e-9, 0.05, 1., 6., 18., 1e3, 1e6];
+const REWARD_SCALES: [f64; 4] = [1., 18., 1e3, 1e6];
+/// The only prior mean the shipped caller uses (SearchAgent::new).
+const PRIOR_MEAN: f64 = 1.;
+
+#[derive(Clone)]
+struct Act;
+struct Fb(f64);
+
+impl SlotFeedback for Fb {
+    fn reward(&self) -> Float { self.0 }
+}
+
+impl SlotAction for Act {
+    type Context = f64;
+    type Feedback = Fb;
+    fn take(&self, reward: f64) -> Fb { Fb(reward) }
+}
+
+/// Validates what a real Gamma / Normal would reject (or silently turn into NaN) and delegates.
+#[derive(Clone)]
+struct RecSampler { inner: DefaultDistributionSampler, bad: Rc<RefCell<Option<String>>> }
+
+impl DistributionSampler for RecSampler {
+    fn gamma(&self, shape: Float, scale: Float) -> Float {
+        if !(shape > 0. && shape.is_finite() && scale > 0. && scale.is_finite()) {
+            self.bad.borrow_mut().get_or_insert(format!("gamma(shape={shape}, scale={scale})"));
+            return 1.;
+        }
+        self.inner.gamma(shape, scale)
+    }
+    fn normal(&self, mean: Float, std_dev: Float) -> Float {
+        if !(mean.is_finite() && std_dev.is_finite() && std_dev >= 0.) {
+            self.bad.borrow_mut().get_or_insert(format!("normal(mean={mean}, std_dev={std_dev})"));
+            return 0.;
+        }
+        self.inner.normal(mean, std_dev)
+    }
+}
+
+#[derive(Clone, Debug, Serialize, Deserialize)]
+pub struct SlotCase {
+    pub seed: u64,
+    pub slots: u8,
+    /// true: slot picked by random_argmax over samples (as SearchAgent::search); false: one slot gets everything
+    pub thompson: bool,
+    pub rewards: Vec<Num>,
+}
+
+pub struct SlotProp;
+
+impl Prop for SlotProp {
+    type Case = SlotCase;
+    fn name(&self) -> &'static str { "slot_machine" }
+    fn strategy(&self, _tier: Tier) -> BoxedStrategy<SlotCase> {
+        let reward = prop_oneof![
+            5 => (0..REWARDS.len() as u8).prop_map(Num::P),
+            3 => (0..REWARD_SCALES.len() as u8, any::<u32>()).prop_map(|(s, u)| Num::U(s, u)),
+        ];
+        (any::<u64>(), 2u8..=5, prop::bool::weighted(0.6), prop::collection::vec(reward, 1..=300))
+            .prop_map(|(seed, slots, thompson, rewards)| SlotCase { seed, slots, thompson, rewards })
+            .boxed()
+    }
+    fn cases(&self, tier: Tier) -> u32 { tier.pick(40_000, 2_000_000) }
+    fn shards(&self, _tier: Tier) -> u32 { 16 }
+    fn check(&self, c: &SlotCase, stats: &Stats) -> Check {
+        let random: Arc<dyn Random> = Arc::new(SeededRandom::new(c.seed));
+        let bad: Rc<RefCell<Option<String>>> = Default::default();
+        let sampler = RecSampler { inner: DefaultDistributionSampler::new(random.clone()), bad: bad.clone() };
+        let k = if c.thompson { c.slots.max(1) as usize } else { 1 };
+        let mut slots = (0..k).map(|_| SlotMachine::new(PRIOR_MEAN, Act, sampler.clone())).collect::<Vec<_>>();
+        // (count, min, max) of the rewards each slot has seen
+        let mut seen = vec![(0usize, f64::INFINITY, f64::NEG_INFINITY); k];
+        let sample_all = |slots: &[SlotMachine<Act, RecSampler>], step: usize| -> Result<Vec<f64>, Failure> {
+            let xs = slots.iter().map(|s| s.sample()).collect::<Vec<_>>();
+            if let Some(b) = bad.borrow().as_ref() {
+                let params = slots.iter().map(|s| s.get_params()).collect::<Vec<_>>();
+                return Err(Failure::new("slot:sampler-invalid-argument", format!("step {step}: sampler called with {b}; slot params {params:?}")));
+            }
+            ensure!(xs.iter().all(|x| x.is_finite()), "slot:sample-non-finite", "step {step}: samples {xs:?}");
+            Ok(xs)
+        };
+        let (mut tiny, mut huge, mut max_beta) = (false, false, 0f64);
+        for (step, r) in c.rewards.iter().enumerate() {
+            let r = r.get(&REWARDS, &REWARD_SCALES);
+            tiny |= r <= 5e-324;
+            huge |= r >= 1e3;
+            let samples = sample_all(&slots, step)?;
+            let idx = if c.thompson {
+                let idx = random_argmax(samples.iter().copied(), random.as_ref());
+                ensure!(idx.is_some_and(|i| i < k), "slot:argmax-no-configured-slot", "step {step}: random_argmax returned {idx:?} for {samples:?}");
+                let idx = idx.unwrap();
+                ensure!(samples.iter().all(|s| samples[idx] >= *s), "slot:argmax-not-maximal", "step {step}: picked {idx} of {samples:?}");
+                idx
+            } else {
+                0
+            };
+            let feedback = slots[idx].play(r);
+            slots[idx].update(&feedback);
+            let s = &mut seen[idx];
+            *s = (s.0 + 1, s.1.min(r), s.2.max(r));
+            let (alpha, beta, mu, v, n) = slots[idx].get_params();
+            let state = format!("step {step} reward {r:?}: alpha={alpha:?} beta={beta:?} mu={mu:?} v={v:?} n={n}");
+            ensure!(alpha.is_finite() && beta.is_finite() && mu.is_finite() && v.is_finite(), "slot:non-finite-param", "{state}");
+            ensure!(alpha > 0., "slot:alpha-non-positive", "{state}");
+            ensure!(beta > 0., "slot:beta-non-positive", "{state}");
+            ensure!(v >= 0., "slot:negative-variance", "{state}");
+            ensure!(n == s.0, "slot:usage-count", "{state}, but {} rewards were fed", s.0);
+            // tolerance: 1e-9 * max(1, largest reward seen) absolute (running mean rounding)
+            let tol = 1e-9 * s.2.max(1.);
+            ensure!(mu >= s.1 - tol && mu <= s.2 + tol, "slot:mean-outside-hull", "{state}; rewards seen by the slot span [{:?}, {:?}]", s.1, s.2);
+            max_beta = max_beta.max(beta);
+        }
+        sample_all(&slots, c.rewards.len())?;
+        stats.eval();
+        if tiny && huge {
+            stats.nontrivial(hash_of(&format!("{c:?}")));
+            stats.class("slot.mix_zero_or_denormal_with_ge_1e3");
+        }
+        stats.class(if c.thompson { "slot.thompson_multi_slot" } else { "slot.single_slot" });
+        if c.rewards.len() >= 100 { stats.class("slot.history_ge_100"); }
+        stats.class_max("slot.max_beta_log10", max_beta.log10().max(0.) as u64);
+        stats.sample(1, || json!({"kind": "slot_machine", "slots": k, "rewards": c.rewards.len(), "final_params": format!("{:?}", slots.iter().map(|s| s.get_params()).collect::<Vec<_>>())}));
+        Ok(())
+    }
+}
+
+// ---------------------------------------------------------------------------------------------
+// (b) random_argmax and DefaultRandom::weighted
+// ---------------------------------------------------------------------------------------------
+
+const VALUES: [f64; 16] = [f64::MIN, -1e308, -1e3, -1., -5e-324, -0., 0., 5e-324, 1e-9, 0.5, 1., 1.0000000000000002, 6., 1e6, 1e308, f64::MAX];
+const WEIGHTS: [usize; 11] = [0, 0, 1, 1, 2, 3, 10, 100, 1000, 1_000_000, usize::MAX];
+
+#[derive(Clone, Debug, Serialize, Deserialize)]
+pub struct SelCase { pub seed: u64, pub values: Vec<Num>, pub weights: Vec<u8> }
+
+pub struct SelProp;
+
+impl Prop for SelProp {
+    type Case = SelCase;
+    fn name(&self) -> &'static str { "argmax_weighted" }
+    fn strategy(&self, _tier: Tier) -> BoxedStrategy<SelCase> {
+        (any::<u64>(), prop::collection::vec(num(VALUES.len(), 2, (-2, 2)), 0..=12), prop::collection::vec(0..WEIGHTS.len() as u8, 1..=10))
+            .prop_map(|(seed, values, weights)| SelCase { seed, values, weights })
+            .boxed()
+    }
+    fn cases(&self, tier: Tier) -> u32 { tier.pick(200_000, 10_000_000) }
+    fn check(&self, c: &SelCase, stats: &Stats) -> Check {
+        verif_reseed_repeatable(c.seed);
+        let random = DefaultRandom::new_repeatable();
+        let values = c.values.iter().map(|v| v.get(&VALUES, &[1., 18.])).collect::<Vec<_>>();
+        let weights = c.weights.iter().map(|w| WEIGHTS[*w as usize % WEIGHTS.len()]).collect::<Vec<_>>();
+        let max_count = values.iter().filter(|v| values.iter().all(|o| *v >= o)).count();
+        let mut picks = std::collections::BTreeSet::new();
+        for _ in 0..6 {
+            match random_argmax(values.iter().copied(), &random) {
+                None => ensure!(values.is_empty(), "argmax:none-for-non-empty", "None for {values:?}"),
+                Some(i) => {
+                    ensure!(i < values.len(), "argmax:out-of-range", "index {i} for {values:?}");
+                    ensure!(values.iter().all(|v| values[i] >= *v), "argmax:not-maximal", "index {i} ({}) is not maximal in {values:?}", values[i]);
+                    picks.insert(i);
+                }
+            }
+            // `weights` is never empty: the callers pass one weight per configured operator
+            let w = random.weighted(&weights);
+            ensure!(w < weights.len(), "weighted:out-of-range", "index {w} for {weights:?}");
+            // a zero weight is a zero rate: it can only win when every rate is zero
+            ensure!(weights[w] > 0 || weights.iter().all(|x| *x == 0), "weighted:zero-weight-picked", "index {w} has weight 0 in {weights:?}");
+        }
+        stats.eval();
+        if max_count >= 2 {
+            stats.nontrivial(hash_of(&format!("{c:?}")));
+            stats.class("argmax.ties_at_max");
+            if picks.len() >= 2 { stats.class("argmax.ties_resolved_to_different_indices"); }
+        }
+        match values.len() {
+            0 => stats.class("argmax.empty"),
+            1 => stats.class("argmax.single"),
+            _ => {}
+        }
+        if weights.contains(&0) { stats.class(if weights.iter().all(|x| *x == 0) { "weighted.all_zero" } else { "weighted.some_zero" }); }
+        if weights.len() == 1 { stats.class("weighted.single"); }
+        stats.sample(2, || json!({"kind": "argmax_weighted", "values": values, "weights": weights}));
+        Ok(())
+    }
+}
+
+// ---------------------------------------------------------------------------------------------
+// (c) DynamicSelective over the harness context with is_experimental = true (Display telemetry)
+// ---------------------------------------------------------------------------------------------
+
+/// Non-negative fitness palette (costs).
+const FITNESS: [f64; 14] = [0., 5e-324, 1e-300, 1e-9, 0.5, 1., 1.0000000000000002, 2., 10., 1e3, 1e6, 1e12, 1e300, f64::MAX];
+const RATIOS: [f64; 7] = [0., 0.01, 0.05, 0.1, 0.15, 0.2, 1.];
+
+#[derive(Clone, Debug, Serialize, Deserialize)]
+pub struct DsStep {
+    pub initial: Vec<Num>,
+    pub new: Vec<Num>,
+    pub best: Vec<Num>,
+    /// sign bits: component i of initial (bit i), new (bit 4+i), best (bit 8+i) is negated; 0 in the campaign
+    pub neg: u16,
+    pub ratio: u8,
+    pub many: bool,
+    pub no_best: bool,
+}
+
+#[derive(Clone, Debug, Serialize, Deserialize)]
+pub struct DsCase { pub seed: u64, pub dims: u8, pub ops: u8, pub steps: Vec<DsStep> }
+
+/// `probe: None` is the campaign over non-negative fitness; `Some(k)` is one fixed targeted case of an
+/// input class that is excluded from the campaign by construction (opposite-sign fitness components).
+pub struct DsProp { pub probe: Option<u8> }
+
+struct ScriptOp { next: Arc<Mutex<Option<Sol>>> }
+
+impl HeuristicSearchOperator for ScriptOp {
+    type Context = TCtx;
+    type Objective = Lex;
+    type Solution = Sol;
+    fn search(&self, _: &TCtx, solution: &Sol) -> Sol { self.next.lock().unwrap().clone().unwrap_or_else(|| solution.deep_copy()) }
+}
+
+thread_local! {
+    /// One-thread pool per shard thread: `search_many` then runs on a thread whose repeatable RNG the case seeds.
+    static POOL: ThreadPool = ThreadPool::new(1);
+}
+
+fn ds_run(c: &DsCase, stats: &Stats, probe: bool) -> Check {
+    let environment = env(c.seed, true);
+    let n = c.dims.max(1) as usize;
+    let names = (0..c.ops.max(1)).map(|i| format!("op{i}")).collect::<Vec<_>>();
+    let next: Arc<Mutex<Option<Sol>>> = Default::default();
+    let operators: HeuristicSearchOperators<TCtx, Lex, Sol> = names.iter().map(|name| (Arc::new(ScriptOp { next: next.clone() }) as Arc<dyn HeuristicSearchOperator<Context = TCtx, Objective = Lex, Solution = Sol> + Send + Sync>, name.clone(), 1.)).collect();
+    let mut heuristic = DynamicSelective::new(operators, vec![], &environment);
+    let mut ctx = TCtx::new(environment.clone());
+    let sol = |v: &[Num], neg: u16, shift: usize| Sol((0..n).map(|i| v[i % v.len()].get(&FITNESS, &[1., 1e3]) * if neg >> (i + shift) & 1 == 1 { -1. } else { 1. }).collect());
+    let mut late_diff = false;
+    for (i, step) in c.steps.iter().enumerate() {
+        let (initial, new, best) = (sol(&step.initial, step.neg, 0), sol(&step.new, step.neg, 4), sol(&step.best, step.neg, 8));
+        // the parent is a member of the population, so the best known is never worse than it
+        let best = if Lex.total_order(&initial, &best) == Ordering::Less { initial.clone() } else { best };
+        late_diff |= n > 1 && [&initial, &best].iter().any(|o| new.0[0] == o.0[0] && new.0 != o.0);
+        ctx.ranked = if step.no_best { vec![] } else { vec![best] };
+        ctx.statistics.generation = i;
+        ctx.statistics.improvement_1000_ratio = RATIOS[step.ratio as usize % RATIOS.len()];
+        *next.lock().unwrap() = Some(new.clone());
+        let out = if step.many { heuristic.search_many(&ctx, vec![&initial]) } else { heuristic.search(&ctx, &initial) };
+        ensure!(out.len() == 1, "ds:offspring-count", "step {i}: {} offspring for one parent", out.len());
+    }
+    // telemetry: "name,generation,reward,from,to,duration" rows, then "generation,state,name,alpha,beta,mu,v,n" rows
+    let text = format!("{heuristic}");
+    let mut section = 0;
+    let (mut rewards, mut params) = (vec![], vec![]);
+    for line in text.lines() {
+        match line {
+            "name,generation,reward,from,to,duration" => section = 1,
+            "generation,state,name,alpha,beta,mu,v,n" => section = 2,
+            "TELEMETRY" | "search:" | "heuristic:" => {}
+            _ => {
+                let f = line.split(',').collect::<Vec<_>>();
+                let p = |i: usize| f.get(i).and_then(|s| s.parse::<f64>().ok());
+                match section {
+                    1 => rewards.push((f[0].to_string(), p(2), f.get(3).copied() == Some("best"), f.get(4).copied() == Some("best"))),
+                    2 => params.push((f.get(2).map(|s| s.to_string()), p(3), p(4), p(5), p(6), p(7))),
+                    _ => {}
+                }
+            }
+        }
+    }
+    ensure!(rewards.len() == c.steps.len(), "ds:telemetry-rows", "{} search rows for {} searches:\n{text}", rewards.len(), c.steps.len());
+    // documented: distance in [-N, N] => base reward <= (N+1) + (N+1)*2, multiplier in (~0.5, 3]; N = 1 gives the literal [0, 6] x 3
+    let limit = 9. * (n as f64 + 1.);
+    let (mut lo, mut hi) = (PRIOR_MEAN, PRIOR_MEAN);
+    for (i, (name, reward, from_best, to_best)) in rewards.iter().enumerate() {
+        ensure!(names.contains(name), "ds:unknown-operator", "search {i} was attributed to '{name}', configured {names:?}");
+        let st = &c.steps[i];
+        let what = || format!("search {i}: parent {:?} -> offspring {:?}, best known {:?}, improvement ratio {} got reward {reward:?} (N={n})", sol(&st.initial, st.neg, 0).0, sol(&st.new, st.neg, 4).0, sol(&st.best, st.neg, 8).0, RATIOS[st.ratio as usize % RATIOS.len()]);
+        let class = if probe { ":opposite-sign-fitness" } else { "" };
+        ensure!(reward.is_some_and(|r| r.is_finite()), format!("ds:reward-non-finite{class}"), "{}; the slot update then makes beta NaN and the next sample() panics in the gamma sampler", what());
+        let r = reward.unwrap();
+        ensure!(r >= 0., "ds:reward-negative", "{}", what());
+        ensure!(r <= limit * (1. + 1e-12), format!("ds:reward-above-documented-range{class}"), "{}; documented upper bound {limit}", what());
+        (lo, hi) = (lo.min(r), hi.max(r));
+        stats.class(if r > 0. { "ds.reward_positive" } else { "ds.reward_zero" });
+        if r > 18. { stats.class("ds.reward_above_literal_0_6_x3_range_multi_objective"); }
+        stats.class(match (from_best, to_best) {
+            (true, true) => "ds.best_to_best",
+            (true, false) => "ds.best_to_diverse",
+            (false, true) => "ds.diverse_to_best",
+            _ => "ds.diverse_to_diverse",
+        });
+    }
+    for (name, alpha, beta, mu, v, cnt) in params.iter() {
+        let row = format!("telemetry row name={name:?} alpha={alpha:?} beta={beta:?} mu={mu:?} v={v:?} n={cnt:?}");
+        ensure!(name.as_ref().is_some_and(|x| names.contains(x)), "ds:unknown-operator", "{row}");
+        ensure!([alpha, beta, mu, v, cnt].iter().all(|x| x.is_some_and(|x| x.is_finite())), "ds:param-non-finite", "{row}");
+        ensure!(alpha.unwrap() > 0. && beta.unwrap() > 0. && v.unwrap() >= 0., "ds:param-invalid", "{row}");
+        let tol = 1e-9 * hi.max(1.);
+        ensure!(mu.unwrap() >= lo - tol && mu.unwrap() <= hi + tol, "ds:mean-outside-hull", "{row}; prior and rewards span [{lo}, {hi}]");
+    }
+    stats.eval();
+    stats.class_n("ds.param_rows", params.len() as u64);
+    if late_diff {
+        stats.nontrivial(hash_of(&format!("{c:?}")));
+        stats.class("ds.pair_differs_first_at_index_ge_1");
+    }
+    stats.class(if n == 1 { "ds.scalar_objective" } else { "ds.multi_objective" });
+    stats.sample(3, || json!({"kind": "dynamic_selective", "dims": n, "operators": names.len(), "searches": c.steps.len(), "telemetry_head": text.lines().take(5).collect::<Vec<_>>()}));
+    Ok(())
+}
+
+impl Prop for DsProp {
+    type Case = DsCase;
+    fn name(&self) -> &'static str {
+        match self.probe {
+            None => "dynamic_selective",
+            Some(0) => "dynamic_selective_probe_opposite_sign_range",
+            Some(_) => "dynamic_selective_probe_opposite_sign_overflow",
+        }
+    }
+    fn strategy(&self, _tier: Tier) -> BoxedStrategy<DsCase> {
+        if let Some(probe) = self.probe {
+            // 0: N=2, parent (1, 0) -> offspring (-1, 0): relative distance 2 * 2, outside the documented [-N, N]
+            // 1: N=1, parent f64::MAX -> offspring -f64::MAX: |a - b| overflows
+            let (dims, v) = if probe == 0 { (2, Num::I(1)) } else { (1, Num::P(13)) };
+            let fit = vec![v, Num::I(0)];
+            let step = DsStep { initial: fit.clone(), new: fit.clone(), best: fit, neg: 1 << 4, ratio: 0, many: false, no_best: false };
+            return Just(DsCase { seed: 1, dims, ops: 1, steps: vec![step] }).boxed();
+        }
+        (any::<u64>(), 1usize..=3, 1u8..=4)
+            .prop_flat_map(move |(seed, dims, ops)| {
+                let fit = || prop::collection::vec(num(FITNESS.len(), 2, (0, 4)), dims);
+                let step = (fit(), fit(), fit(), 0..RATIOS.len() as u8, prop::bool::weighted(0.3), prop::bool::weighted(0.05)).prop_map(|(initial, new, best, ratio, many, no_best)| DsStep { initial, new, best, neg: 0, ratio, many, no_best });
+                prop::collection::vec(step, 1..=40).prop_map(move |steps| DsCase { seed, dims: dims as u8, ops, steps })
+            })
+            .boxed()
+    }
+    fn cases(&self, tier: Tier) -> u32 { if self.probe.is_some() { 1 } else { tier.pick(30_000, 1_500_000) } }
+    fn shards(&self, _tier: Tier) -> u32 { 16 }
+    fn check(&self, c: &DsCase, stats: &Stats) -> Check {
+        let probe = self.probe.is_some();
+        match POOL.with(|pool| pool.execute(|| guard(|| ds_run(c, stats, probe)))) {
+            Ok(r) => r,
+            Err(p) => Err(Failure::new(format!("ds:panic:{}", panic_site(&p)), format!("DynamicSelective panicked: {p}"))),
+        }
+    }
+}
+
+// ---------------------------------------------------------------------------------------------
+// (d1) termination estimates
+// ---------------------------------------------------------------------------------------------
+
+const GENERATIONS: [usize; 10] = [0, 1, 2, 3, 10, 1000, 3000, 1 << 32, usize::MAX - 1, usize::MAX];
+const TIME_LIMITS: [f64; 10] = [0., 5e-324, 1e-300, 1e-9, 1e-3, 1., 300., 1e9, 1e300, f64::MAX];
+const THRESHOLDS: [f64; 8] = [0., 1e-9, 1e-3, 0.01, 0.05, 0.1, 0.5, 1.];
+
+#[derive(Clone, Debug, Serialize, Deserialize)]
+pub struct EstCase {
+    pub limit: u8,
+    pub generation: u8,
+    pub time_limit: u8,
+    pub threshold: u8,
+    pub sample: u8,
+    pub target: Vec<Num>,
+    pub fitness: Vec<Num>,
+    pub with_best: bool,
+}
+
+pub struct EstProp;
+
+impl Prop for EstProp {
+    type Case = EstCase;
+    fn name(&self) -> &'static str { "termination_estimates" }
+    fn strategy(&self, _tier: Tier) -> BoxedStrategy<EstCase> {
+        let fit = || prop::collection::vec(num(FITNESS.len(), 2, (0, 4)), 1..=3);
+        (0..GENERATIONS.len() as u8, 0..GENERATIONS.len() as u8, 0..TIME_LIMITS.len() as u8, 0..THRESHOLDS.len() as u8, 1u8..=8, fit(), fit(), prop::bool::weighted(0.9))
+            .prop_map(|(limit, generation, time_limit, threshold, sample, target, fitness, with_best)| EstCase { limit, generation, time_limit, threshold, sample, target, fitness, with_best })
+            .boxed()
+    }
+    fn cases(&self, tier: Tier) -> u32 { tier.pick(60_000, 3_000_000) }
+    fn check(&self, c: &EstCase, stats: &Stats) -> Check {
+        type T = Box<dyn Termination<Context = TCtx, Objective = Lex>>;
+        let mut ctx = TCtx::new(env(0, false));
+        let (limit, generation) = (GENERATIONS[c.limit as usize % 10], GENERATIONS[c.generation as usize % 10]);
+        let (time_limit, threshold) = (TIME_LIMITS[c.time_limit as usize % 10], THRESHOLDS[c.threshold as usize % 8]);
+        ctx.statistics.generation = generation;
+        let vals = |v: &[Num]| v.iter().map(|x| x.get(&FITNESS, &[1., 1e3])).collect::<Vec<_>>();
+        if c.with_best { ctx.ranked = vec![Sol(vals(&c.fitness))]; }
+        let make = || -> Vec<(&'static str, T)> {
+            vec![
+                ("max-generation", Box::new(MaxGeneration::new(limit))),
+                ("max-time", Box::new(MaxTime::new(time_limit))),
+                ("target-proximity", Box::new(TargetProximity::new(vals(&c.target), threshold))),
+                ("min-variation", Box::new(MinVariation::new_with_sample(c.sample.max(1) as usize, threshold, true, 1))),
+            ]
+        };
+        for (name, t) in make() {
+            let before = t.estimate(&ctx);
+            let fired = t.is_termination(&mut ctx);
+            let after = t.estimate(&ctx);
+            ensure!(in_unit(before) && in_unit(after), format!("estimate:{name}-outside-unit-interval"), "{name}: estimates {before:?} / {after:?} (limit {limit}, generation {generation}, time limit {time_limit:?})");
+            // (max-time is a wall-clock verdict: not counted, evidence stays a function of the seed)
+            if fired && name != "max-time" { stats.class(&format!("estimate.{name}.terminated")); }
+        }
+        let composite = CompositeTermination::new(make().into_iter().map(|(_, t)| t).collect());
+        let e = composite.estimate(&ctx);
+        ensure!(in_unit(e), "estimate:composite-outside-unit-interval", "composite estimate {e}");
+        let empty = CompositeTermination::<TCtx, Lex, Sol>::new(vec![]).estimate(&ctx);
+        ensure!(in_unit(empty), "estimate:composite-outside-unit-interval", "empty composite estimate {empty}");
+        stats.eval();
+        if limit == 0 || time_limit == 0. { stats.class("estimate.zero_limit"); }
+        if generation > limit {
+            stats.nontrivial(hash_of(&format!("{c:?}")));
+            stats.class("estimate.generation_beyond_limit");
+        }
+        if generation > 0 && generation < limit { stats.class("estimate.generation_strictly_inside_limit"); }
+        Ok(())
+    }
+}
+
+// ---------------------------------------------------------------------------------------------
+// (d2) MinVariation (sample mode) against an independent CV computation
+// ---------------------------------------------------------------------------------------------
+
+const BASES: [f64; 7] = [1., 10., 1000., 1e6, 0.001, 0., -1000.];
+const SPREADS: [f64; 6] = [0., 1., 2.5, 4., 8., 32.];
+/// jitter value meaning "same value as in the previous generation" (stagnation)
+const REPEAT: i8 = -1;
+
+#[derive(Clone, Debug, Serialize, Deserialize)]
+pub struct MvStep { pub jitter: Vec<i8>, pub phase: u8, pub no_best: bool }
+
+#[derive(Clone, Debug, Serialize, Deserialize)]
+pub struct MvCase {
+    pub sample: u8,
+    pub threshold: u8,
+    pub is_global: bool,
+    pub bases: Vec<u8>,
+    pub spread: u8,
+    /// generation numbers 0,0,1,2,.. as produced by Telemetry (true) or 0,1,2,.. (false)
+    pub repeat_zero: bool,
+    pub steps: Vec<MvStep>,
+}
+
+pub struct MvProp;
+
+/// (population cv, sample cv, mean); an all-equal window has no variation by definition.
+fn cv_of(values: &[f64]) -> (f64, f64, f64) {
+    let n = values.len() as f64;
+    let mean = values.iter().sum::<f64>() / n;
+    if values.iter().all(|v| *v == values[0]) { return (0., 0., mean); }
+    let ss = values.iter().map(|v| (v - mean) * (v - mean)).sum::<f64>();
+    ((ss / n).sqrt() / mean, (ss / (n - 1.)).sqrt() / mean, mean)
+}
+
+impl Prop for MvProp {
+    type Case = MvCase;
+    fn name(&self) -> &'static str { "min_variation" }
+    fn strategy(&self, _tier: Tier) -> BoxedStrategy<MvCase> {
+        (1usize..=3)
+            .prop_flat_map(|dims| {
+                let base = prop_oneof![22 => 0u8..5, 2 => Just(5u8), 1 => Just(6u8)];
+                let jitter = prop_oneof![2 => Just(REPEAT), 3 => 0i8..=16];
+                let step = (prop::collection::vec(jitter, dims), prop_oneof![1 => 0u8..2, 2 => Just(2u8)], prop::bool::weighted(0.01)).prop_map(|(jitter, phase, no_best)| MvStep { jitter, phase, no_best });
+                (1u8..=8, 0..THRESHOLDS.len() as u8, prop::bool::weighted(0.7), prop::collection::vec(base, dims), 0..SPREADS.len() as u8, any::<bool>(), prop::collection::vec(step, 1..=40))
+            })
+            .prop_map(|(sample, threshold, is_global, bases, spread, repeat_zero, steps)| MvCase { sample, threshold, is_global, bases, spread, repeat_zero, steps })
+            .boxed()
+    }
+    fn cases(&self, tier: Tier) -> u32 { tier.pick(80_000, 4_000_000) }
+    fn shards(&self, _tier: Tier) -> u32 { 16 }
+    fn check(&self, c: &MvCase, stats: &Stats) -> Check {
+        let sample = c.sample.max(1) as usize;
+        let threshold = THRESHOLDS[c.threshold as usize % THRESHOLDS.len()];
+        // values of one objective lie in base * [1, 1 + spread * max(threshold, 1e-3)]
+        let unit = SPREADS[c.spread as usize % SPREADS.len()] * threshold.max(1e-3) / 16.;
+        let termination = MinVariation::<TCtx, Lex, Sol, i32>::new_with_sample(sample, threshold, c.is_global, 7);
+        let mut ctx = TCtx::new(env(0, false));
+        let mut history: HashMap<usize, Vec<f64>> = HashMap::new();
+        let mut previous: Option<Vec<f64>> = None;
+        let band = 1e-9 + 1e-9 * threshold;
+        let (mut fired_full, mut silent_full) = (0u32, 0u32);
+        for (k, step) in c.steps.iter().enumerate() {
+            let generation = if c.repeat_zero { k.saturating_sub(1) } else { k };
+            let fitness = (0..c.bases.len())
+                .map(|d| match (step.jitter[d % step.jitter.len()], previous.as_ref()) {
+                    (REPEAT, Some(p)) => p[d],
+                    (j, _) => BASES[c.bases[d] as usize % BASES.len()] * (1. + unit * j.max(0) as f64),
+                })
+                .collect::<Vec<_>>();
+            ctx.statistics.generation = generation;
+            ctx.phase = step.phase;
+            ctx.ranked = if step.no_best { vec![] } else { vec![Sol(fitness.clone())] };
+            let fired = termination.is_termination(&mut ctx);
+            let e = termination.estimate(&ctx);
+            ensure!(in_unit(e), "estimate:min-variation-outside-unit-interval", "estimate {e}");
+            if step.no_best {
+                // no best known solution: nothing is observed in this generation (statement silent on the verdict)
+                stats.class("minvar.no_best_known.unasserted");
+                history.remove(&generation);
+                continue;
+            }
+            history.insert(generation, fitness.clone());
+            previous = Some(fitness);
+            let at = format!("step {k} generation {generation} (sample {sample}, threshold {threshold}, global {})", c.is_global);
+            if generation + 1 < sample {
+                ensure!(!fired, "minvar:fired-before-window-full", "{at}: fired with fewer than `sample` generations observed");
+                stats.class("minvar.window_not_full");
+                continue;
+            }
+            if !c.is_global && step.phase != 2 {
+                // documented flag: "whether the logic is applicable for all search phases, not only exploitation"
+                ensure!(!fired, "minvar:fired-outside-exploitation", "{at}: non-global criterion fired in phase {}", step.phase);
+                stats.class("minvar.gated_by_phase");
+                continue;
+            }
+            let window = (generation + 1 - sample..=generation).map(|g| history.get(&g)).collect::<Option<Vec<_>>>();
+            let Some(window) = window else {
+                stats.class("minvar.window_with_gap.unasserted");
+                continue;
+            };
+            let cvs = (0..c.bases.len()).map(|d| cv_of(&window.iter().map(|f| f[d]).collect::<Vec<_>>())).collect::<Vec<_>>();
+            if cvs.iter().any(|(_, _, mean)| *mean < 0.) {
+                // sign convention of CV for a negative mean is not specified (code: sd/mean < 0 counts as "below")
+                stats.class("minvar.negative_mean.unasserted");
+                continue;
+            }
+            let detail = || format!("{at}: per-objective (cv population, cv sample, mean) {cvs:?}, window {window:?}");
+            if cvs.iter().all(|(_, smp, _)| *smp < threshold - band) {
+                ensure!(fired, "minvar:not-fired-below-threshold", "{}", detail());
+            } else if cvs.iter().any(|(pop, _, _)| *pop > threshold + band) {
+                ensure!(!fired, "minvar:fired-above-threshold", "{}", detail());
+            } else {
+                // within the 1e-9 band, or between the population and the sample definition of the variance
+                stats.class("minvar.band_or_between_definitions.unasserted");
+                continue;
+            }
+            if fired {
+                fired_full += 1;
+            } else {
+                silent_full += 1;
+            }
+        }
+        stats.eval();
+        stats.class_n("minvar.fired", fired_full as u64);
+        stats.class_n("minvar.not_fired_full_window", silent_full as u64);
+        if fired_full > 0 && silent_full > 0 {
+            stats.nontrivial(hash_of(&format!("{c:?}")));
+            stats.class("minvar.history_straddles_threshold");
+        }
+        stats.sample(4, || json!({"kind": "min_variation", "sample": sample, "threshold": threshold, "global": c.is_global, "steps": c.steps.len(), "fired": fired_full, "not_fired": silent_full}));
+        Ok(())
+    }
+}
+
+// ---------------------------------------------------------------------------------------------
+// (e) relative_distance, mean / variance / stdev / cv, Remedian
+// ---------------------------------------------------------------------------------------------
+
+const MAGNITUDES: [f64; 13] = [0., 5e-324, 1e-300, 1e-9, 0.1, 0.5, 1., 1.0000000000000002, 6., 1e3, 1e6, 1e12, 1e100];
+
+#[derive(Clone, Debug, Serialize, Deserialize)]
+pub struct MathCase {
+    pub xs: Vec<Num>,
+    pub ys: Vec<Num>,
+    /// sign bits for xs (low 32) and ys (high 32); 0 = non-negative stream
+    pub neg: u64,
+    pub base: u8,
+    pub exponent: u8,
+    /// xs is its first element repeated (constant stream: rounding may drive the variance below zero)
+    pub constant: bool,
+}
+
+pub struct MathProp;
+
+impl Prop for MathProp {
+    type Case = MathCase;
+    fn name(&self) -> &'static str { "math" }
+    fn strategy(&self, _tier: Tier) -> BoxedStrategy<MathCase> {
+        let stream = |max| prop::collection::vec(num(MAGNITUDES.len(), 3, (0, 5)), 0..=max);
+        (stream(40), stream(8), prop_oneof![Just(0u64), any::<u64>()], 1u8..=11, 1u8..=3, prop::bool::weighted(0.1)).prop_map(|(xs, ys, neg, base, exponent, constant)| MathCase { xs, ys, neg, base, exponent, constant }).boxed()
+    }
+    fn cases(&self, tier: Tier) -> u32 { tier.pick(100_000, 5_000_000) }
+    fn shards(&self, _tier: Tier) -> u32 { 16 }
+    fn check(&self, c: &MathCase, stats: &Stats) -> Check {
+        let vals = |v: &[Num], shift: u32| v.iter().enumerate().map(|(i, x)| x.get(&MAGNITUDES, &[1., 1e3, 1e-6]) * if c.neg >> (shift + i as u32 % 32) & 1 == 1 { -1. } else { 1. }).collect::<Vec<_>>();
+        let (mut xs, ys) = (vals(&c.xs, 0), vals(&c.ys, 32));
+        if c.constant && !xs.is_empty() {
+            xs = vec![xs[0]; xs.len()];
+            stats.class("math.constant_stream");
+        }
+        // relative distance: documented as D = |x - y| / max(|x|, |y|) per component (each in [0, 2]), euclidean norm of these
+        let n = xs.len().min(ys.len());
+        let d = relative_distance(xs.iter(), ys.iter());
+        let spec = xs.iter().zip(ys.iter()).map(|(a, b)| if a.abs().max(b.abs()) == 0. { 0. } else { (a - b).abs() / a.abs().max(b.abs()) }).map(|x| x * x).sum::<f64>().sqrt();
+        ensure!(d.is_finite() && d >= 0. && d <= 2. * (n as f64).sqrt() * (1. + 1e-12), "math:relative-distance-range", "relative_distance = {d:?} for {xs:?} / {ys:?}");
+        ensure!((d - spec).abs() <= 1e-9 * spec.max(1.), "math:relative-distance-value", "relative_distance = {d:?}, formula gives {spec:?} for {xs:?} / {ys:?}");
+        ensure!(relative_distance(ys.iter(), xs.iter()).to_bits() == d.to_bits(), "math:relative-distance-asymmetric", "{xs:?} / {ys:?}");
+        ensure!(relative_distance(xs.iter(), xs.iter()) == 0., "math:relative-distance-identity", "{xs:?}");
+        // statistics
+        if xs.is_empty() {
+            stats.class("math.empty_stream.unasserted");
+        } else {
+            let (lo, hi) = xs.iter().fold((f64::INFINITY, f64::NEG_INFINITY), |(l, h), x| (l.min(*x), h.max(*x)));
+            let scale = lo.abs().max(hi.abs());
+            let (mean, mean_iter, var, sd, cv, cv_safe) = (get_mean_slice(&xs), get_mean_iter(xs.iter().copied()), get_variance(&xs), get_stdev(&xs), get_cv(&xs), get_cv_safe(&xs));
+            let what = format!("mean {mean:?} variance {var:?} stdev {sd:?} cv {cv:?} of {xs:?}");
+            ensure!(mean.is_finite() && mean >= lo - 1e-9 * scale && mean <= hi + 1e-9 * scale, "math:mean-outside-hull", "{what}");
+            ensure!((mean - mean_iter).abs() <= 1e-9 * scale, "math:mean-iter-differs", "get_mean_iter {mean_iter:?}; {what}");
+            // population variance ("Bessel's correction is not used"), tolerance 1e-9 * scale^2
+            let spec = xs.iter().map(|x| (x - mean) * (x - mean)).sum::<f64>() / xs.len() as f64;
+            ensure!(var.is_finite() && (var - spec).abs() <= 1e-9 * scale * scale + 1e-9 * spec, "math:variance-value", "two-pass population variance {spec:?}; {what}");
+            ensure!(!cv_safe.is_nan(), "math:cv-safe-nan", "get_cv_safe = {cv_safe}; {what}");
+            if var < 0. {
+                // rounding: not asserted, get_cv documents NaN through get_cv_safe
+                stats.class("math.variance_slightly_negative.unasserted");
+                stats.class(if sd.is_nan() { "math.stdev_nan.unasserted" } else { "math.stdev_not_nan_for_negative_variance" });
+            } else {
+                ensure!((sd - var.sqrt()).abs() <= 1e-9 * scale, "math:stdev-value", "{what}");
+                if lo >= 0. {
+                    // non-negative data: 0 <= cv <= sqrt(n - 1)
+                    ensure!(cv >= 0. && cv <= ((xs.len() - 1) as f64).sqrt() * (1. + 1e-9) + 1e-9, "math:cv-range", "{what}");
+                    ensure!(cv_safe.to_bits() == cv.to_bits(), "math:cv-safe-differs", "get_cv_safe = {cv_safe}; {what}");
+                    stats.class("math.cv_checked_non_negative_stream");
+                } else {
+                    stats.class(if cv.is_finite() { "math.cv_signed_stream.unasserted" } else { "math.cv_signed_stream_non_finite.unasserted" });
+                }
+            }
+        }
+        // remedian
+        let (base, exponent) = (c.base.max(1) as usize, c.exponent.max(1) as usize);
+        let capacity = base.pow(exponent as u32);
+        let mut remedian = Remedian::new(base, exponent, |a: &f64, b: &f64| a.total_cmp(b));
+        ensure!(remedian.approx_median().is_none(), "remedian:median-of-nothing", "empty estimator returned a median");
+        for (i, x) in xs.iter().enumerate() {
+            let added = remedian.add_observation(*x);
+            ensure!(added == (i < capacity), "remedian:add-flag", "observation {i} (base {base}, exponent {exponent}, capacity {capacity}) returned {added}");
+            let m = remedian.approx_median();
+            let seen = &xs[..(i + 1).min(capacity)];
+            ensure!(m.is_some_and(|m| seen.iter().any(|s| s.to_bits() == m.to_bits())), "remedian:not-an-element", "after {} observations median {m:?} is not one of {seen:?}", i + 1);
+            let mut sorted = seen.to_vec();
+            sorted.sort_by(|a, b| a.total_cmp(b));
+            let exact = sorted[sorted.len() / 2];
+            if i + 1 == base {
+                // one full buffer: its median (the definition of the estimator; pinned by the repo's unit test)
+                ensure!(m.unwrap().to_bits() == exact.to_bits(), "remedian:full-buffer-not-median", "base {base}: median {m:?} of {seen:?}, expected {exact:?}");
+                stats.class("remedian.full_first_buffer_exact");
+            } else if i + 1 < base {
+                stats.class(if m.unwrap().to_bits() == exact.to_bits() { "remedian.partial_buffer_is_median" } else { "remedian.partial_buffer_is_lower_rank.unasserted" });
+            }
+        }
+        stats.eval();
+        if xs.len() > capacity { stats.class("remedian.stream_beyond_capacity"); }
+        if xs.len() > base && exponent > 1 { stats.class("remedian.multi_buffer"); }
+        if n >= 2 && c.neg != 0 { stats.class("math.relative_distance_mixed_sign"); }
+        let mixed_scale = xs.iter().any(|x| x.abs() >= 1e6) && xs.iter().any(|x| *x != 0. && x.abs() <= 1e-9);
+        if mixed_scale {
+            stats.nontrivial(hash_of(&format!("{c:?}")));
+            stats.class("math.stream_mixes_1e6_and_1e-9_scales");
+        }
+        Ok(())
+    }
+}
 
 pub fn property(_tier: Tier) -> PropertyDef {
-    PropertyDef { id: "STUB", level: "exploration", rule: "stub", assumptions: vec![], props: vec![], extra: None, required_classes: vec!["stub.never"] }
+    PropertyDef {
+        id: "C18",
+        level: "exploration",
+        rule: "proptest, numbers kept symbolic (palette / uniform fill / small int) so replays are bit-exact. (slot_machine) reward histories of 1-300 items from {0, 5e-324, 1e-300, 1e-9, 0.05, 1, 6, 18, 1e3, 1e6} and uniform fills up to 1e6, fed to 1 slot or to 2-5 SlotMachine(prior mean 1, as the shipped caller) picked by random_argmax over sample() like SearchAgent; a recording DistributionSampler rejects shape<=0, scale<=0, non-finite and std_dev<0 before delegating to the default sampler; after every update: alpha>0, beta>0, all finite, v>=0, n = rewards fed, mu within the hull of the rewards seen by the slot (abs. tolerance 1e-9*max(1,max reward)), every sample finite, arg-max returns a configured slot holding a maximal sample. (argmax_weighted) random_argmax over 0-12 finite values (ties, +-0, denormals, +-f64::MAX) and DefaultRandom::weighted over 1-10 weights from {0,1,2,3,10,100,1e3,1e6,usize::MAX}, 6 draws each: in-range, maximal element, None only for empty input, zero weight only picked when all weights are zero. (dynamic_selective) DynamicSelective(is_experimental) with 1-4 scripted operators over a harness HeuristicContext, 1-40 searches (search / search_many) with generated parent, offspring and best-known fitness (1-3 objectives, non-negative palette from 0 and denormal to f64::MAX), improvement ratio and empty population; parsed Display telemetry: one row per search attributed to a configured operator, reward finite, >=0 and <= 9(N+1) (documented distance range [-N,N] => base <= 3(N+1), multiplier <= 3; N=1 is the literal [0,6]x3), parameter rows alpha>0, beta>0, v>=0, finite, mu within hull of prior and rewards. Two fixed probes cover opposite-sign fitness, which the campaign excludes by construction. (termination_estimates) MaxGeneration / MaxTime / TargetProximity / MinVariation / CompositeTermination estimates before and after is_termination over limits incl. 0, usize::MAX, 5e-324, f64::MAX: in [0,1]. (min_variation) MinVariation sample mode (sample 1-8, thresholds 0..1, global or exploitation-only) driven generation by generation (0,1,2.. or Telemetry's 0,0,1,2..) with 1-3 objectives base*(1+spread*jitter) incl. constant-zero objectives and stagnation; independent CV per objective over the last `sample` generations: must fire when every sample-CV < threshold-band, must not fire when some population-CV > threshold+band (band 1e-9+1e-9*threshold), never before `sample` generations were observed, never outside exploitation when not global. (math) relative_distance (range [0,2*sqrt(n)], formula, symmetry, identity), mean within hull, population variance vs two-pass (1e-9*scale^2), stdev, cv in [0,sqrt(n-1)] for non-negative streams, get_cv_safe never NaN, Remedian(base 1-11, exponent 1-3): add flag vs capacity, estimate is an element of the stream, equals the median when exactly one buffer is full. Non-trivial: reward history mixing a zero/denormal reward with one >=1e3; arg-max input with a tie at the maximum; search whose offspring differs from parent or best first at objective index >=1; estimate case with generation beyond the limit; variation history with asserted fired and asserted not-fired full windows; statistic stream mixing magnitudes >=1e6 and <=1e-9. Distinct by case hash.",
+        assumptions: vec![
+            "SlotMachine prior mean 1 and DefaultDistributionSampler, as constructed by hyper/dynamic_selective.rs (the only shipped caller)",
+            "weighted(): at least one weight (callers pass one weight per configured operator); a zero weight may be returned only when all weights are zero (up to the 2^-52 event of a uniform draw of exactly 0)",
+            "campaign fitness values are non-negative (costs); opposite-sign fitness components are exercised only by the two fixed probes",
+            "reward bound for N>1 objectives is the one implied by the documented distance range [-N,N]; rewards above the literal [0,6]x3 are counted in ds.reward_above_literal_0_6_x3_range_multi_objective",
+            "operator durations are whatever the wall clock gives (0-1 ms); they only select a documented multiplier in (0.5,3] and never decide a verdict",
+            "variation criterion: objective values are 0 or of magnitude 1e-3..4e7 (below ~1e-154 the squared deviations underflow and the criterion fires regardless of the CV, above ~1e154 they overflow and it never fires: extreme scales are not generated); generations are consecutive as produced by the evolution loop; windows with a negative mean, with a generation lacking a best-known solution, within the 1e-9 band or between the population and sample definitions of variance are counted (*.unasserted), not asserted",
+            "statistics helpers: magnitudes up to 1e100 (squares stay finite); a variance rounded slightly below zero and the resulting NaN stdev/cv are counted, get_cv documents NaN via get_cv_safe; Remedian estimates on a partially filled first buffer are only required to be stream elements (the repo's unit test pins a lower-rank estimate there)",
+        ],
+        props: vec![Box::new(SlotProp), Box::new(SelProp), Box::new(DsProp { probe: None }), Box::new(EstProp), Box::new(MvProp), Box::new(MathProp), Box::new(DsProp { probe: Some(0) }), Box::new(DsProp { probe: Some(1) })],
+        extra: None,
+        required_classes: vec![
+            "slot.mix_zero_or_denormal_with_ge_1e3", "slot.thompson_multi_slot", "slot.single_slot", "slot.history_ge_100", "argmax.ties_at_max",
+            "argmax.ties_resolved_to_different_indices", "argmax.single", "argmax.empty", "weighted.some_zero", "weighted.all_zero",
+            "weighted.single", "ds.pair_differs_first_at_index_ge_1", "ds.reward_positive", "ds.reward_zero", "ds.param_rows", "ds.best_to_best",
+            "ds.diverse_to_best", "ds.scalar_objective", "ds.multi_objective", "estimate.zero_limit", "estimate.generation_beyond_limit",
+            "estimate.generation_strictly_inside_limit", "minvar.fired", "minvar.not_fired_full_window", "minvar.history_straddles_threshold", "minvar.gated_by_phase",
+            "math.cv_checked_non_negative_stream", "math.constant_stream", "math.stream_mixes_1e6_and_1e-9_scales",
+            "remedian.full_first_buffer_exact", "remedian.multi_buffer", "remedian.stream_beyond_capacity",
+        ],
+    }
 }
